@@ -62,7 +62,7 @@ func (o cacheOp) String() string {
 }
 
 func suiteC20Hist(cfg Config, res *Result) {
-	res.Rule = "random histories (<= 20 ops) over FromCache(n), CleanCache(), CleanCache(n..), Debug on/off, write/delete a file (incl. content that does not compile) on 3 names (one spelled two ways: a.tpl and ./a.tpl) with a counting in-memory loader; compared with the Lean cache model: identity classes of the returned templates (pointer equality), errors, and the loader's Get log; direct oracle: same pointer for the same name between cleans with Debug off, one fetch per miss; a second set sharing the loader is never affected; non-trivial = history with >= 2 FromCache of one name; distinct by history"
+	res.Rule = "random histories (<= 20 ops) over FromCache(n), CleanCache(), CleanCache(n..), Debug on/off, write/delete a file (incl. content that does not compile) on 3 names (one spelled two ways: a.tpl and ./a.tpl) with a counting in-memory loader; compared with the Lean cache model: identity classes of the returned templates (pointer equality), errors, and the loader's Get log; direct oracle: same pointer for the same name between cleans with Debug off, one fetch per miss, a name covered by a CleanCache (whatever Debug says at that moment) is fetched again at its next lookup; a second set sharing the loader is never affected; non-trivial = history with >= 2 FromCache of one name; distinct by history"
 	n := 3000
 	if cfg.Thorough() {
 		n = 60000
@@ -111,6 +111,7 @@ func suiteC20Hist(cfg Config, res *Result) {
 		var out []string
 		gets := map[string]int{}
 		lastPtr := map[string]*pongo2.Template{}
+		mustFetch := map[string]bool{} // cleaned since it was last cached: the next lookup has to go to the loader
 		debug := false
 		for _, o := range ops {
 			switch o.k {
@@ -118,6 +119,12 @@ func suiteC20Hist(cfg Config, res *Result) {
 				gets[o.names[0]]++
 				before := len(ml.log)
 				tpl, err := set.FromCache(o.names[0])
+				if !debug && mustFetch[ml.Abs("", o.names[0])] {
+					if len(ml.log) == before {
+						res.add(Finding{Kind: "oracle", Proj: "cache", Sig: "c20-clean-did-not-forget", Case: fmt.Sprint(ops), Impl: fmt.Sprintf("%s: served without asking the loader after CleanCache", o), Model: "a cleaned name is fetched again"})
+					}
+					delete(mustFetch, ml.Abs("", o.names[0]))
+				}
 				if err != nil {
 					out = append(out, "e")
 					delete(lastPtr, ml.Abs("", o.names[0]))
@@ -140,10 +147,14 @@ func suiteC20Hist(cfg Config, res *Result) {
 			case "A":
 				set.CleanCache()
 				lastPtr = map[string]*pongo2.Template{}
+				for _, nm := range []string{"a.tpl", "b.tpl", "c.tpl"} {
+					mustFetch[nm] = true
+				}
 			case "K":
 				set.CleanCache(o.names...)
 				for _, nm := range o.names {
 					delete(lastPtr, ml.Abs("", nm))
+					mustFetch[ml.Abs("", nm)] = true
 				}
 			case "D":
 				set.Debug = o.b
